@@ -315,6 +315,17 @@ func (m *gwModel) explorer() *explorer {
 		return fnPkgPath(g) == pkGateway
 	}
 	e.MaxDepth = 6
+	// the comma-ok result of a lookup in the transaction store agrees with the tracked dynamic type
+	e.ValueHook = func(v ssa.Value, ex *explorer, st *pstate, fr *frame) (aval, bool) {
+		if x, ok := v.(*ssa.Extract); ok && x.Index == 1 {
+			if call, ok := x.Tuple.(*ssa.Call); ok && strings.HasPrefix(calleeName(&call.Call), "(*"+pkTrans+".TransactionStore).Get") {
+				if tv, have := st.cells["type:tx"]; have && tv.known && tv.isStr {
+					return kbool(tv.s != "none" && tv.s != "nil"), true
+				}
+			}
+		}
+		return aval{}, false
+	}
 	e.ResolveInvoke = func(cc *ssa.CallCommon, ex *explorer, st *pstate, fr *frame) *ssa.Function {
 		if f := m.c.uniqueImpl(cc); f != nil {
 			return f
